@@ -6,7 +6,8 @@ FUNCS = ["SCPI_Parse", "scpiParser_detectProgramMessageUnit", "scpiLex_ProgramHe
          "matchCommand", "matchPattern", "processCommand", "SCPI_ErrorPushEx", "SCPI_CmdTag", "SCPI_IsCmd"]
 
 
-def mk(n, timeout=900, solver=None, config=(), tag="", real_matcher=False):
+def mk(n, timeout=900, solver=None, config=(), tag="", real_matcher=False, menu=0):
+    n0 = n
     us = {"SCPI_RegSet.0": 4, "SCPI_ErrorPushEx.0": 10, "SCPI_Parse.0": n + 2, "SCPI_Parse.1": n + 2, "findCommandHeader.0": 10,
           "strnpbrk.0": 6, "strnpbrk.1": n + 5, "memmove.0": n + 5, "memmove.1": n + 5, "memcpy.0": n + 2, "strlen.0": 10, "strnlen.0": n + 2,
           "strncasecmp.0": 10, "eq.0": 8, "handler.0": n + 5, "matchCommand.0": 9, "matchCommand.1": n + 5, "ref_lookup.0": 9, "r_header.0": n + 2, "r_mnemonic.0": n + 2, "skipProgramMnemonic.0": n + 2,
@@ -14,7 +15,13 @@ def mk(n, timeout=900, solver=None, config=(), tag="", real_matcher=False):
     for k in range(13):
         us["harness.%d" % k] = n + 5
     # everything else (the do{}while(0) macros and the keyword loops of matchCommand: at most 3 keywords + 1) gets 6
-    return Case("msg-n%d%s" % (n, tag), H, SRCS, defs=["-DN=%d" % n], config=list(config), unwind=6, unwindset=us,
+    if menu:
+        n = 6 * menu + 1
+        tag = "-menu%d" % menu + tag
+        for kk in list(us):
+            if us[kk] in (n0 + 2, n0 + 5):
+                us[kk] = us[kk] - n0 + n
+    return Case("msg-n%d%s" % (n, tag), H, SRCS, defs=["-DN=%d" % n] + (["-DMENU=%d" % menu] if menu else []), config=list(config), unwind=6, unwindset=us,
                 extra_c=["models/mem.c"], remove_bodies=["scpiParser_parseAllProgramData"] + ([] if real_matcher else ["matchCommand"]), link_stubs=["scpiParser_parseAllProgramData"] + ([] if real_matcher else ["matchCommand"]), timeout=timeout, solver=solver, mem_est=8, functions=FUNCS,
                 stubs=["strndup (malloc+copy)", "strnlen/strtol (exact models)", "memmove/memcpy (byte-loop models)", "scpiParser_parseAllProgramData replaced by an assert(false) stub: unreachable because the alphabet has no white space (proved)"] + ([] if real_matcher else ["matchCommand replaced by the reference acceptance relation of the 8 table patterns (pattern acceptance is C03)"]),
                 bounds=dict(message="every well-formed message of 1..%d bytes over {A B C : ; ? * LF}: non-empty units of complete headers separated by ';', optional final LF" % n,
@@ -24,7 +31,7 @@ def mk(n, timeout=900, solver=None, config=(), tag="", real_matcher=False):
 def cases(tier):
     if tier == "quick":
         return [mk(6)]
-    return [mk(9, 6000, "cadical"), mk(8, 3000, None, ["-DUSE_DEVICE_DEPENDENT_ERROR_INFORMATION=0"], "-noinfo")]
+    return [mk(8, 9000, "cadical"), mk(9, 12000, "cadical"), mk(7, 6000, None, ["-DUSE_DEVICE_DEPENDENT_ERROR_INFORMATION=0"], "-noinfo")]
 
 
 META = dict(
